@@ -180,6 +180,9 @@ type c09Replay struct {
 func runC09(c *ctx) {
 	r := c.res.Rng
 	if c.replay != "" {
+		if c.c09LongReplayFile() { // c09_long.go
+			return
+		}
 		var rp c09Replay
 		if err := readJSON(c.replay, &rp); err == nil && rp.KM != nil {
 			c.res.Rule = "replay of one key-material case"
@@ -261,6 +264,7 @@ func runC09(c *ctx) {
 	c.c09PrefixEmbedding(r)
 	c.c09Replay()
 	c.c09KeyMaterial(nil)
+	c.c09LongSessionIDs(nil) // c09_long.go: session ids of 64..1000 bytes sharing long prefixes
 }
 
 func stateFP(n *Node) string {
